@@ -425,7 +425,19 @@ func ruleC06R8(r *Run) {
 		return
 	}
 	k := 0
+	// the loop, its closures, and helpers called only from it (the dispatch of one message moved into a method)
+	fns := []*ssa.Function{}
 	withAnon(fn, func(f *ssa.Function) {
+		fns = append(fns, f)
+		allInstrs(f, func(ins ssa.Instruction) {
+			if c, ok := ins.(*ssa.Call); ok {
+				if cf := c.Call.StaticCallee(); cf != nil && p.Analysed(cf) && recvTypeName(cf) == "ClientConn" && len(p.staticCallSites(cf)) == 1 {
+					withAnon(cf, func(g *ssa.Function) { fns = append(fns, g) })
+				}
+			}
+		})
+	})
+	for _, f := range fns {
 		allInstrs(f, func(ins ssa.Instruction) {
 			name := fnName(f)
 			switch x := ins.(type) {
@@ -441,7 +453,7 @@ func ruleC06R8(r *Run) {
 				}
 			}
 		})
-	})
+	}
 }
 
 func chanField(p *Prog, ch ssa.Value) string {
